@@ -91,8 +91,8 @@ class Runner:
 
     def start(self, names=None):
         from concurrent.futures import ThreadPoolExecutor
-        names = list(names or CONDITIONS)
-        self.pool = ThreadPoolExecutor(max_workers=len(names))
+        names = list(CONDITIONS) if names is None else list(names)
+        self.pool = ThreadPoolExecutor(max_workers=max(1, len(names)))
         for name in names:
             self.procs[name] = self.pool.submit(self._run, name)
 
